@@ -154,8 +154,10 @@ class Maintainer(Asset):
 
     def _finish_work_order(self, request):
         request.target.end_work(request.tag)
-        self._utilization -= request.needed_capacity
         self._active_requests.remove(request)
+        # Re-derive instead of subtracting: with fractional capacities a
+        # running sum leaves a rounding residue behind when idle.
+        self._utilization = sum(r.needed_capacity for r in self._active_requests)
         self._record_work_order_datapoint('finish_work_order', request)
 
         self.try_working_requests()
